@@ -143,9 +143,11 @@ def find_slot_sites(prog):
 
                 def looks_at(test):
                     return any(is_self_attr(x, F) or (isinstance(x, ast.Name) and x.id in aliased) for x in ast.walk(test))
+                def hands_back(body):
+                    # a hit: the guarded block returns what is in the slot (not merely some value while the slot happens to be looked at)
+                    return any(isinstance(b, ast.Return) and b.value is not None and looks_at(b.value) for b in ast.walk(ast.Module(body=body, type_ignores=[])))
                 guards = [n for n in _own_nodes(fnode) if isinstance(n, ast.If) and looks_at(n.test)
-                          and (any(isinstance(b, ast.Return) for b in ast.walk(ast.Module(body=n.body, type_ignores=[])))
-                               or any(b is st for b in ast.walk(ast.Module(body=n.body + n.orelse, type_ignores=[]))))]
+                          and (hands_back(n.body) or any(b is st for b in ast.walk(ast.Module(body=n.body + n.orelse, type_ignores=[]))))]
                 if not guards:
                     continue
                 key = ast.Tuple(elts=[g.test for g in guards], ctx=ast.Load())
@@ -326,6 +328,8 @@ def _chain_verdict(chain, is_dict):
 
 def _param_is_dict(fnode, name):
     a = fnode.args
+    if a.kwarg is not None and a.kwarg.arg == name:
+        return True                   # **options is always a dict
     pos = a.posonlyargs + a.args
     for arg, d in zip(pos[len(pos) - len(a.defaults):], a.defaults):
         if arg.arg == name and (isinstance(d, ast.Dict) or (isinstance(d, ast.Call) and getattr(d.func, "id", None) == "dict")):
@@ -333,6 +337,41 @@ def _param_is_dict(fnode, name):
     for arg, d in zip(a.kwonlyargs, a.kw_defaults):
         if arg.arg == name and isinstance(d, ast.Dict):
             return True
+    return False
+
+
+def _callers_pass_dict(prog, finfo, name, depth=0):
+    """a parameter without a default of its own is a dict parameter when the package's callers hand it one of theirs that defaults to a dict
+    (or a dict display): the private helper behind `get_x(..., userAlphabet={})`"""
+    if depth > 3:
+        return False
+    from .bind import bind
+    idx = getattr(prog, "_call_index", None)
+    if idx is None:
+        idx = {}
+        for g in prog.all_funcs():
+            for n in ast.walk(g.node):
+                if isinstance(n, ast.Call):
+                    try:
+                        c = prog.resolve_call(g, n)
+                    except Exception:
+                        c = None
+                    if c is not None:
+                        idx.setdefault(c.key, []).append((g, n))
+        prog._call_index = idx
+    if finfo is None:
+        return False
+    for g, n in idx.get(finfo.key, []):
+        if True:
+            try:
+                _, b = bind(prog, g, n, finfo)
+            except Exception:
+                continue
+            a = (b or {}).get(name)
+            if isinstance(a, (ast.Dict, ast.DictComp)) or (isinstance(a, ast.Call) and getattr(a.func, "id", None) == "dict"):
+                return True
+            if isinstance(a, ast.Name) and (_param_is_dict(g.node, a.id) or (a.id in g.params() and _callers_pass_dict(prog, g, a.id, depth + 1))):
+                return True
     return False
 
 
@@ -362,6 +401,20 @@ def _values_read(prog, finfo, name, depth=0, seen=None):
                     return True
             for k in kws:
                 if _values_read(prog, callee, k, depth + 1, seen):
+                    return True
+    # a helper that dispatches on a constant its callers pass (`getattr(obj, 'get_%s' % measure)`): the question is asked of the helper as
+    # each call site runs it
+    if depth < 2 and not getattr(finfo, "specialised_for", None):
+        from .bind import specialise
+        _callers_pass_dict(prog, None, name)             # (builds the call index on first use)
+        for g, n in (getattr(prog, "_call_index", None) or {}).get(finfo.key, []):
+            try:
+                sf = specialise(prog, g, n, finfo)
+            except Exception:
+                sf = None
+            if sf is not None:
+                seen.discard((finfo.key, name))
+                if _values_read(prog, sf, name, depth + 1, seen):
                     return True
     return False
 
@@ -599,7 +652,18 @@ def analyse(prog, E):
                     writers.setdefault((s.f.cls, path), set()).add(s.f.name)
     for site in find_sites(prog):
         d = Deps(prog, site.mod, site.fnode, site.cls, E)
-        keydeps = d.of(site.key)
+        key_for_deps = site.key
+        if getattr(site, "slot", False):
+            # the validity test of a one-slot cache looks at the slot itself (`self.F is not None`): that mention is the cache, not an input
+            import copy as _copy
+
+            class _NoSlot(ast.NodeTransformer):
+                def visit_Attribute(self, n):
+                    if is_self_attr(n, site.table):
+                        return ast.copy_location(ast.Constant(value=None), n)
+                    return self.generic_visit(n)
+            key_for_deps = _NoSlot().visit(_copy.deepcopy(site.key))
+        keydeps = d.of(key_for_deps)
         valdeps = d.of(site.value)
         # control dependence of the store itself: `if <test>: T[k] = 0 else: T[k] = f(...)` - each stored value also depends on <test>
         # (the miss test `k not in T` mentions the table and is not an input)
@@ -630,7 +694,7 @@ def analyse(prog, E):
                 missing.append(p)
                 why.append("parameter '%s' influences the stored value but is not part of the key" % name)
                 continue
-            is_dict = _param_is_dict(site.fnode, name)
+            is_dict = _param_is_dict(site.fnode, name) or _callers_pass_dict(prog, finfo, name)
             vs = {_chain_verdict(c, is_dict) for c in chains}
             if "all" in vs:
                 continue
@@ -655,8 +719,9 @@ def analyse(prog, E):
         calls_in_key = {k[5:] for k in keydeps if k.startswith("call:")}
         if {"countPos", "countNeg", "countNeut"} <= calls_in_key or "self.seq" in key_names:
             key_names = key_names | {"self.len"}                  # N = n+ + n- + n0
-        if site.scope != "object":
-            # memo fields of the object itself (dmax, seqDeltaMax) are results, not inputs
+        # memo fields of the object itself (dmax, seqDeltaMax) are results, not inputs: what deltaMax() returns does not depend on whether it
+        # has been asked before (C03 KIND / C15 M-rules decide that)
+        if site.table not in OWN_MEMO_FIELDS:
             fields -= {"self.dmax", "self.seqDeltaMax"}
         quantity_verdict = None
         if site.scope != "object" and fields and finfo is not None:
@@ -701,6 +766,27 @@ def analyse(prog, E):
                 missing.append("outside:" + outside)
                 why.append("the stored value is read from outside the program (%s); the key %s only names where to read, so a later call returns "
                            "what was there the first time" % (outside, unparse(site.key)))
+        # (e) what the filling call returns is what later calls will find: a `return` that follows the store must hand back the stored value
+        #     (the entry, the slot, the local that was stored, or something computed from them), not a different one
+        stored_names = {site.table}
+        if isinstance(site.value, ast.Name):
+            stored_names.add(site.value.id)
+        for a_ in _own_nodes(site.fnode):
+            if isinstance(a_, ast.Assign) and len(a_.targets) == 1 and isinstance(a_.targets[0], ast.Name) and any(
+                    (isinstance(x, ast.Attribute) and x.attr == site.table) or (isinstance(x, ast.Name) and x.id == site.table) for x in ast.walk(a_.value)):
+                stored_names.add(a_.targets[0].id)
+        st_line = getattr(site.store, "lineno", 0)
+        for r_ in _own_nodes(site.fnode):
+            if not (isinstance(r_, ast.Return) and r_.value is not None and r_.lineno > st_line):
+                continue
+            mentions = any((isinstance(x, ast.Name) and x.id in stored_names) or (isinstance(x, ast.Attribute) and x.attr in stored_names) for x in ast.walk(r_.value))
+            same = unparse(r_.value) == unparse(site.value)
+            restored = any(isinstance(a_, ast.Assign) and st_line < a_.lineno <= r_.lineno and unparse(a_.value) == unparse(r_.value) and any(
+                (isinstance(t_, ast.Attribute) and t_.attr == site.table) or (isinstance(t_, ast.Subscript) and unparse(t_.value).split(".")[-1] == site.table) for t_ in a_.targets)
+                for a_ in _own_nodes(site.fnode))                  # the slot is overwritten with exactly what is returned
+            if not mentions and not same and not restored and isinstance(r_.value, ast.Constant) and _follows(site.fnode, site.store, r_):
+                missing.append("return:%s" % unparse(r_.value))
+                why.append("after storing %s the filling call returns %s: a later call returns the stored value instead" % (unparse(site.value)[:50], unparse(r_.value)))
         lossy = sorted(k for k in keydeps if k.startswith("lossy:")) + lossy_params
         if quantity_verdict == "ok":
             lossy = lossy_params               # the projections of the receiver in the key were shown sufficient
@@ -710,6 +796,32 @@ def analyse(prog, E):
         res.append({"site": site, "verdict": verdict, "missing": missing, "why": why, "lossy": lossy,
                     "key": unparse(site.key), "value": unparse(site.value)[:80]})
     return res
+
+
+def _follows(fnode, store, ret):
+    """can `ret` be executed after `store` in one call?  (not when they sit in different arms of the same `if`)"""
+    def chain(node):
+        path = []
+
+        def rec(n, acc):
+            if n is node:
+                path.extend(acc)
+                return True
+            for fld_, val in ast.iter_fields(n):
+                kids = val if isinstance(val, list) else [val]
+                for k in kids:
+                    if isinstance(k, ast.AST) and rec(k, acc + [(n, fld_)]):
+                        return True
+            return False
+        rec(fnode, [])
+        return path
+    a, b = chain(store), chain(ret)
+    for (na, fa), (nb, fb) in zip(a, b):
+        if na is not nb:
+            break
+        if isinstance(na, ast.If) and fa != fb and {fa, fb} == {"body", "orelse"}:
+            return False
+    return True
 
 
 def decorated(prog):
